@@ -34,7 +34,7 @@ def expect_finalize(child, parent):
     for f in ('globals', 'nonlocals', 'annotations'):
       e[f] |= c[f]
   else:
-    e['read'] |= c['read'] - c['bound']
+    e['read'] |= c['read'] - (c['bound'] - c['nonlocals'])
     e['annotations'] |= c['annotations'] - c['bound']
   return e
 
